@@ -194,3 +194,65 @@ Definition is_period_last (h vp : Z) : bool := (h + 1) mod vp =? 0.
 (** oracle.EndBlocker, price part *)
 Definition end_block (fx : bool) (p : params) (st : state) (h : Z) : outcome :=
   if is_period_last h (p_vote_period p) then update fx p st h else Done (rates st) [].
+
+(* ================================================================ histories of vote periods *)
+
+(** The oracle stores that live across blocks: ExchangeRates, Votes (one aggregate vote per voter,
+    kept sorted by voter id = store order), Prevotes (voter, submit block). *)
+Record hstate := mkHS { hs_rates : list rate_entry; hs_votes : list avote; hs_prevotes : list (nat * Z) }.
+
+(** what does not change along a history in this model: staking view and whitelist
+    (params.Whitelist = WhitelistedPairs store, so refreshWhitelist is the identity) *)
+Record henv := mkHEnv {
+  he_validators : list valinfo; he_maxv : nat; he_btok : Z; he_pr : Z; he_whitelist : list nat }.
+
+(** one step: votes / prevotes submitted since the previous step (Insert overwrites per voter), then
+    EndBlocker at height [hp_h] *)
+Record hstep := mkHStep { hp_votes : list avote; hp_prevotes : list (nat * Z); hp_h : Z }.
+
+Fixpoint put_vote (a : avote) (l : list avote) : list avote :=
+  match l with
+  | [] => [a]
+  | b :: r => if Nat.ltb (a_voter a) (a_voter b) then a :: l
+              else if Nat.eqb (a_voter a) (a_voter b) then a :: r
+              else b :: put_vote a r
+  end.
+Definition put_votes (l : list avote) (new : list avote) : list avote := fold_left (fun acc a => put_vote a acc) new l.
+
+Fixpoint put_prevote (x : nat * Z) (l : list (nat * Z)) : list (nat * Z) :=
+  match l with
+  | [] => [x]
+  | y :: r => if Nat.ltb (fst x) (fst y) then x :: l
+              else if Nat.eqb (fst x) (fst y) then x :: r
+              else y :: put_prevote x r
+  end.
+Definition put_prevotes (l new : list (nat * Z)) : list (nat * Z) := fold_left (fun acc x => put_prevote x acc) new l.
+
+Definition env_state (e : henv) (vs : list avote) (rs : list rate_entry) : state :=
+  mkState (he_validators e) (he_maxv e) (he_btok e) (he_pr e) (he_whitelist e) vs rs.
+
+(** clearVotesAndPrevotes at a period end: every vote is deleted; a prevote is deleted iff
+    height >= submit block + VotePeriod *)
+Definition keep_prevote (p : params) (h : Z) (x : nat * Z) : bool := h <? snd x + p_vote_period p.
+
+(** None = EndBlocker panicked *)
+Definition hist_step (fx : bool) (p : params) (e : henv) (s : hstate) (x : hstep) : option (hstate * list (nat * Z)) :=
+  let vs := put_votes (hs_votes s) (hp_votes x) in
+  let pvs := put_prevotes (hs_prevotes s) (hp_prevotes x) in
+  match end_block fx p (env_state e vs (hs_rates s)) (hp_h x) with
+  | Panic => None
+  | Done rs evs =>
+      if is_period_last (hp_h x) (p_vote_period p)
+      then Some (mkHS rs [] (filter (keep_prevote p (hp_h x)) pvs), evs)
+      else Some (mkHS rs vs pvs, evs)
+  end.
+
+(** events published by each step of a history (stops at a panic) *)
+Fixpoint hist_events (fx : bool) (p : params) (e : henv) (s : hstate) (xs : list hstep) : list (list (nat * Z)) :=
+  match xs with
+  | [] => []
+  | x :: r => match hist_step fx p e s x with
+              | None => []
+              | Some (s', evs) => evs :: hist_events fx p e s' r
+              end
+  end.
